@@ -7,6 +7,161 @@ use crate::sim::StepOutcome;
 
 pub struct C12;
 
+/// (waiter, lock byte, holder) for every process parked in a blocking lock
+/// wait on .redo/locks at the end of the group.
+fn lock_waits(g: &GroupRec) -> Vec<(String, String, Option<String>)> {
+    use crate::sim::{Class, EvKind};
+    // current holder of every byte, from the granted lock operations
+    let parked: std::collections::BTreeSet<String> = g
+        .deadlock_report
+        .split('[')
+        .skip(1)
+        .map(|p| p.split(' ').next().unwrap_or("").to_string())
+        .collect();
+    let mut holder: BTreeMap<String, String> = BTreeMap::new();
+    let mut last_try: BTreeMap<String, String> = BTreeMap::new();
+    for e in &g.events {
+        match &e.kind {
+            EvKind::Op(Class::Lock) => {
+                let w: Vec<&str> = e.text.split(' ').collect();
+                if w.len() >= 5 && w[1] == ".redo/locks" {
+                    if w[2] == "un" {
+                        if holder.get(w[3]) == Some(&e.lid) {
+                            holder.remove(w[3]);
+                        }
+                    } else if w[0] == "setlk" {
+                        // tentatively granted; a following lockbusy takes it back
+                        if !holder.contains_key(w[3]) {
+                            holder.insert(w[3].to_string(), e.lid.clone());
+                            last_try.insert(e.lid.clone(), w[3].to_string());
+                        } else {
+                            last_try.remove(&e.lid);
+                        }
+                    } else if w[0] == "setlkw" {
+                        // logged when the process parks; it holds the byte once it ran on
+                        last_try.insert(e.lid.clone(), format!("w{}", w[3]));
+                    }
+                }
+            }
+            EvKind::Info if e.text.starts_with("lockbusy .redo/locks ") => {
+                let b = e.text.rsplit(' ').next().unwrap_or("");
+                if last_try.get(&e.lid).map(|x| x.as_str()) == Some(b) && holder.get(b) == Some(&e.lid) {
+                    holder.remove(b);
+                }
+            }
+            EvKind::Go(_) => {
+                if let Some(t) = last_try.get(&e.lid).cloned() {
+                    if let Some(b) = t.strip_prefix('w') {
+                        // a blocked setlkw that was released has been granted
+                        holder.insert(b.to_string(), e.lid.clone());
+                        last_try.remove(&e.lid);
+                    }
+                }
+            }
+            EvKind::Dead => {
+                // (the processes still alive at the deadlock are killed by the
+                // simulator afterwards; their locks count)
+                if !parked.contains(&e.lid) {
+                    holder.retain(|_, h| h != &e.lid);
+                }
+            }
+            _ => {}
+        }
+    }
+    // parked waiters from the report: [<lid> <prog> target=<t> parked in "setlkw .redo/locks wr <b> 1"]
+    let mut out = Vec::new();
+    for part in g.deadlock_report.split('[').skip(1) {
+        if let Some(i) = part.find("parked in \"setlkw .redo/locks ") {
+            let lid = part.split(' ').next().unwrap_or("").to_string();
+            let rest = &part[i..];
+            let w: Vec<&str> = rest.split(' ').collect();
+            // parked in "setlkw .redo/locks wr <b> 1"
+            if w.len() >= 6 {
+                let b = w[5].to_string();
+                let h = holder.get(&b).cloned().filter(|h| h != &lid);
+                out.push((lid, b, h));
+            }
+        }
+    }
+    out
+}
+
+/// A base cycle with chords and extra nodes that lead into and out of it, so
+/// that there are several paths to every node of the cycle; each script asks
+/// for all of its dependencies in one redo-ifchange call (they are built in
+/// parallel at -j>1).
+fn tangled_case(rng: &mut Rng, seed: u64) -> Case {
+    let n = rng.range(4, 7) as usize;
+    let clen = rng.range(2, n as u64 - 1) as usize;
+    let names: Vec<String> = (0..n).map(|i| format!("g{}", i)).collect();
+    let mut rules: Vec<(String, Rule)> = Vec::new();
+    for i in 0..n {
+        let mut deps: Vec<String> = Vec::new();
+        if i < clen {
+            deps.push(names[(i + 1) % clen].clone());
+        } else {
+            // nodes outside the base cycle lead into it
+            deps.push(names[rng.below(clen as u64) as usize].clone());
+        }
+        for _ in 0..rng.range(0, 2) {
+            let d = rng.pick(&names).clone();
+            if d != names[i] && !deps.contains(&d) {
+                deps.push(d);
+            }
+        }
+        if rng.chance(1, 2) {
+            rng.shuffle(&mut deps);
+        }
+        let mut stmts = vec![Stmt::IfChange(deps)];
+        if rng.chance(1, 4) {
+            stmts.push(Stmt::Work(rng.range(1, 20)));
+        }
+        rules.push((format!("{}.do", names[i]), Rule { version: 0, stmts }));
+    }
+    let mut entry = vec![rng.pick(&names).clone()];
+    if rng.chance(1, 3) {
+        let e2 = rng.pick(&names).clone();
+        if !entry.contains(&e2) {
+            entry.push(e2);
+        }
+    }
+    if rng.chance(1, 3) {
+        rules.push((
+            "top.do".into(),
+            Rule {
+                version: 0,
+                stmts: vec![Stmt::IfChange(entry.clone())],
+            },
+        ));
+        entry = vec!["top".into()];
+    }
+    let mut sc = Scenario {
+        family: "c12-tangled".into(),
+        files: vec![("s0".to_string(), source_content("s0", 0))],
+        rules,
+        ..Default::default()
+    };
+    let prog = if rng.chance(1, 2) { "redo" } else { "redo-ifchange" };
+    let mut c = redo_cmd(rng, prog, &entry, 4, 300);
+    if prog == "redo-ifchange" && rng.chance(1, 2) {
+        c.make_tokens = Some(rng.range(1, 3) as u32);
+    }
+    sc.history.push(Step::Cmds(vec![c]));
+    let mut meta = BTreeMap::new();
+    meta.insert("judged_group".to_string(), serde_json::json!(0));
+    Case {
+        property: "C12".into(),
+        seed,
+        scenario: sc,
+        knobs: Knobs::draw(rng),
+        opts: PlayOpts {
+            record_events: true,
+            ..Default::default()
+        },
+        meta,
+    }
+}
+
 impl Property for C12 {
     fn id(&self) -> &'static str {
         "C12"
@@ -19,13 +174,17 @@ impl Property for C12 {
     }
     fn rule(&self) -> &'static str {
         "cycles of length 1-4 among .do scripts (plain and checksummed nodes), reached directly or \
-         through an acyclic prefix of 0-8 nodes, with acyclic siblings, entered at every node, by redo or redo-ifchange at -j1..4, on a first build \
+         through an acyclic prefix of 0-8 nodes, with acyclic siblings (every fifth scenario: a base cycle with chords and extra nodes, several \
+         paths into the cycle, all dependencies of a script requested in one call), entered at every node, by redo or redo-ifchange at -j1..4, on a first build \
          and on a rebuild after the cycle was introduced by a rule edit; oracle: the run terminates (no \
          simulator deadlock, no step/time cap), the top-level status is non-zero, some process reports \
          a cyclic dependency (exit 208 or the message), nothing panics; non-trivial = >=1 preemption and \
          >=1 script; distinct = (scenario, preemption signature)"
     }
     fn generate(&self, rng: &mut Rng, seed: u64, _tier: Tier, index: u64) -> Case {
+        if index % 5 == 4 {
+            return tangled_case(rng, seed);
+        }
         let len = rng.range(1, 4) as usize;
         let cyc: Vec<String> = (0..len).map(|i| format!("c{}", i)).collect();
         let mut files = vec![("s0".to_string(), source_content("s0", 0))];
@@ -139,7 +298,10 @@ impl Property for C12 {
             seed,
             scenario: sc,
             knobs: Knobs::draw(rng),
-            opts: PlayOpts::default(),
+            opts: PlayOpts {
+            record_events: true,
+            ..Default::default()
+        },
             meta,
         }
     }
@@ -155,17 +317,49 @@ impl Property for C12 {
                 continue;
             }
             match g.outcome {
-                StepOutcome::Deadlock => v.push(Violation {
-                    kind: "cycle-hang".into(),
-                    detail: format!("deadlock on a cyclic dependency: {}", g.deadlock_report),
-                }),
-                StepOutcome::StepLimit => v.push(Violation {
-                    kind: "cycle-hang".into(),
-                    detail: format!(
-                        "no termination within the step/time cap: {}",
-                        g.deadlock_report
-                    ),
-                }),
+                StepOutcome::Deadlock | StepOutcome::StepLimit => {
+                    let how = if g.outcome == StepOutcome::Deadlock {
+                        "deadlock on a cyclic dependency"
+                    } else {
+                        "no termination within the step/time cap"
+                    };
+                    // Who waits for whose lock?  A process that blocks on a lock held
+                    // by one of its own ancestors is the case REDO_CYCLES exists for.
+                    // If every blocked lock wait is for a lock held by *another*
+                    // branch of the process tree, the cycle was entered at two
+                    // nodes in parallel (known finding C12-parallel-entry).
+                    let waits = lock_waits(g);
+                    // the job (child process) for which a redo process took a lock byte
+                    let jobs = c06::job_lock_bytes(g);
+                    let cross = !waits.is_empty()
+                        && waits.iter().all(|(w, b, h)| match h {
+                            None => false,
+                            Some(h) => {
+                                // the waiter sits below the very job the lock was taken
+                                // for: a cycle through its own ancestors
+                                let own = jobs.iter().any(|(j, fb)| {
+                                    fb == b
+                                        && j.starts_with(&format!("{}.", h))
+                                        && (w == j || w.starts_with(&format!("{}.", j)))
+                                });
+                                !own
+                            }
+                        });
+                    if cross {
+                        v.push(Violation {
+                            kind: "cycle-hang-parallel-entry".into(),
+                            detail: format!(
+                                "{}: parallel-entry: every blocked process waits for a lock held by another branch {:?}: {}",
+                                how, waits, g.deadlock_report
+                            ),
+                        });
+                    } else {
+                        v.push(Violation {
+                            kind: "cycle-hang".into(),
+                            detail: format!("{}: {} [lock waits {:?}]", how, g.deadlock_report, waits),
+                        });
+                    }
+                }
                 _ => {}
             }
             if let Some(p) = has_panic(g) {
